@@ -362,6 +362,7 @@ def run(ctx, rep):
     key_rule(f, P, rep, 'C15.6')
     # ---------------------------------------------------------------- C15.8
     address_rule(f, ev, rep)
+    host_end_rule(f, ev, rep, 'C15.11')
 
 
 def header_layout_rule(f, rep, rid):
@@ -514,6 +515,56 @@ def shifted(sym_bits, lo, n, at=0, width=64):
         if 0 <= at + i < width and lo + i < len(sym_bits):
             out[at + i] = sym_bits[lo + i]
     return out
+
+
+def host_end_rule(f, ev, rep, rid):
+    """HostCluster::rb_slice_host_end / rb_host_end = start of the slice / refblock range + the host bytes it
+    covers, for every geometry: evaluated by the width-faithful bit evaluator with the offset inside the first
+    range symbolic (the start is then 0 and the result must be the constant 2^(cluster_bits + log2(entries))).
+    A shift done in a narrower type than the result truncates for ranges of 4 GiB and more."""
+    rep.rule(rid, 'rb_slice_host_end / rb_host_end = range start + entries << cluster_bits without loss of bits, for every geometry '
+                  '(cluster size x refcount width x slice size)')
+    n = 0
+    bad = {}
+    for cb in (9, 12, 16, 17, 20, 21):
+        for ro in range(0, 7):
+            for sb in sorted({9, min(12, cb), cb}):
+                if sb + 3 - ro < 0:
+                    continue
+                info = info_value(f, cb, ro, sb, sb)
+                ks, k = sb + 3 - ro, cb + 3 - ro
+                for fn, width in (('rb_slice_host_end', cb + ks), ('rb_host_end', cb + k)):
+                    if width >= 63 or f.body('dev::alloc::HostCluster::' + fn) is None:
+                        continue
+                    bits = ['0'] * 64
+                    for i in range(width):
+                        bits[i] = 'h%d' % i
+                    h = Adt('dev::alloc::HostCluster', 0, [S(bits)])
+                    ev.steps = 0
+                    n += 1
+                    try:
+                        r = ev.call('dev::alloc::HostCluster::' + fn, [h, info])
+                    except Undecided as e:
+                        rep.note_undecided(rid, fn, str(e))
+                        continue
+                    ok = isinstance(r, C) and r.v == (1 << width)
+                    if not ok:
+                        bad.setdefault(fn, []).append((cb, ro, sb, r))
+    rep.floor('host-end evaluations', n, 150)
+    for fn in ('rb_slice_host_end', 'rb_host_end'):
+        b = f.body('dev::alloc::HostCluster::' + fn)
+        if b is None:
+            raise AnalysisError('HostCluster::%s not found' % fn)
+        lst = bad.get(fn, [])
+        rep.ob(rid, 'HostCluster::%s over all geometries' % fn, not lst,
+               '%d geometries wrong, e.g. %s' % (len(lst), ['cluster_bits %d refcount_order %d slice_bits %d -> %r' % x for x in lst[:3]]) if lst else '')
+        if lst:
+            cb, ro, sb, r = lst[0]
+            rep.violation(rid, '%s:%s' % (rid, fn), b.where(0),
+                          'HostCluster::%s is not range start + covered bytes for %d geometries (e.g. cluster_bits %d, refcount_order %d, '
+                          'slice_bits %d: %r for an offset in the first range): the end of a range of 4 GiB or more is computed in a '
+                          'narrower type and truncated; loops that run to that end (free_clusters, try_allocate_from) never terminate' % (
+                              fn, len(lst), cb, ro, sb, r))
 
 
 def address_rule(f, ev, rep):
